@@ -129,7 +129,46 @@ func (r *runner) fail(check, f string, a ...interface{}) {
 	r.viol = append(r.viol, &chain.Violation{Check: check, Props: []string{"C18"}, Height: int64(r.step), Detail: fmt.Sprintf("op %d: ", r.step) + fmt.Sprintf(f, a...)})
 }
 
+// copyDir takes a stable copy of a directory whose store is still open: the store may compact (create,
+// rename, delete files) in the background while the copy runs, so the copy is repeated until the
+// listing (name, size, modification time) is the same before and after it.
 func copyDir(src, dst string) error {
+	list := func() (string, error) {
+		var sb strings.Builder
+		err := filepath.Walk(src, func(p string, info os.FileInfo, err error) error {
+			if err != nil {
+				return err
+			}
+			fmt.Fprintf(&sb, "%s|%d|%d\n", p, info.Size(), info.ModTime().UnixNano())
+			return nil
+		})
+		return sb.String(), err
+	}
+	var last error
+	for try := 0; try < 50; try++ {
+		l1, err := list()
+		if err != nil {
+			last = err
+			time.Sleep(2 * time.Millisecond)
+			continue
+		}
+		_ = os.RemoveAll(dst)
+		if err := copyDirOnce(src, dst); err != nil {
+			last = err
+			time.Sleep(2 * time.Millisecond)
+			continue
+		}
+		l2, err := list()
+		if err == nil && l1 == l2 {
+			return nil
+		}
+		last = fmt.Errorf("directory kept changing during the copy")
+		time.Sleep(2 * time.Millisecond)
+	}
+	return fmt.Errorf("harness: no stable copy of %s: %v", src, last)
+}
+
+func copyDirOnce(src, dst string) error {
 	return filepath.Walk(src, func(p string, info os.FileInfo, err error) error {
 		if err != nil {
 			return err
@@ -558,6 +597,10 @@ func run(t *ltrace, dir string) ([]*chain.Violation, *chain.Probes, []string) {
 	for i, op := range t.Ops {
 		r.step = i
 		if err := r.apply(op); err != nil {
+			if len(r.viol) == 0 {
+				// not a verdict about the ledger: the harness could not carry out the step
+				r.viol = append(r.viol, &chain.Violation{Check: "harness.op", Props: []string{"HARNESS"}, Height: int64(i), Detail: fmt.Sprintf("op %d (%s): %v", i, op.Op, err)})
+			}
 			break
 		}
 		if len(r.viol) > 0 {
